@@ -1212,6 +1212,13 @@ int EGLPNUM_TYPENAME_ILLlib_addrow (
 	qslp = lp->O;
 	A = &qslp->A;
 
+	if (sense != 'L' && sense != 'G' && sense != 'E' && sense != 'R')
+	{
+		QSlog("EGLPNUM_TYPENAME_ILLlib_addrow called with illegal sense: %c", sense);
+		rval = 1;
+		ILL_CLEANUP;
+	}
+
 	for (i = 0; i < cnt; i++)
 	{
 		if (ind[i] < 0 || ind[i] >= qslp->nstruct)
